@@ -12,7 +12,6 @@
 (***************************************************************************)
 EXTENDS TraceBase, V2Score
 
-VARIABLE l
 Tabs == TLCGet(43)
 
 CodesOk(names, codes) == Len(codes) = Len(names) /\ \A i \in 1..Len(names) : codes[i] \in V2CodeSet(names[i])
@@ -78,9 +77,7 @@ Verdict(ev) ==
 
 Init == /\ TLCSet(43, JsonDeserialize(IOEnv.VERIF_GEN \o "/v2tabs.json"))
         /\ LoadTrace
-        /\ l = 1
-Next == /\ l <= Len(Trace)
-        /\ LET v == Verdict(Trace[l]) IN IF v = "ok" THEN TRUE ELSE Report(l, v, "")
-        /\ l' = l + 1
-Spec == Init /\ [][Next]_l
+        /\ TraceInit
+Next == (l <= Len(Trace) /\ Step(Verdict(Trace[l]))) \/ Finish
+Spec == Init /\ [][Next]_<<l, nbad>>
 =============================================================================
